@@ -52,3 +52,11 @@ fn k_chop_quad_at() {
     assert!(dst[0].x.to_bits() == src[0].x.to_bits() && dst[4].y.to_bits() == src[2].y.to_bits(), "end points still preserved");
     kani::cover!(t == 0.5);
 }
+
+// @ob id=K.contract_is_not_monotonic props=C08 kind=complete tier=quick timeout=300 fns=is_not_monotonic
+// @+ desc="Kani function contract attached to the real is_not_monotonic (finite operands): false exactly when b lies strictly beyond a on the way to c; proved by proof_for_contract"
+#[kani::proof_for_contract(is_not_monotonic)]
+fn k_contract_is_not_monotonic() {
+    is_not_monotonic(kani::any(), kani::any(), kani::any());
+    kani::cover!(true);
+}
